@@ -358,6 +358,56 @@ fn check(c: &AgreeCase, rec: &mut CaseRec) -> Verdict {
     Verdict::Pass
 }
 
+/// A single statement whose expression is nested `depth` levels deep around a small core:
+/// the boundary of the nesting cap (100), where analyzer and interpreter must still agree.
+#[derive(Debug, Clone, Serialize, Deserialize)]
+pub struct DepthCase {
+    pub depth: u32,
+    pub core: u8,
+    pub wrap: u8,
+    pub stmt: u8,
+}
+
+fn depth_case_program(c: &DepthCase) -> Program {
+    let one = || Expr::Num(1.0);
+    let mut e = match c.core % 8 {
+        0 => one(),
+        1 => Expr::var("X"),
+        2 => Expr::Cell("A".into(), vec![one()]),
+        3 => Expr::Cell("C".into(), vec![one(), Expr::Num(2.0)]),
+        4 => Expr::Abs(Box::new(one())),
+        5 => Expr::bin(BinOp::Add, Expr::Cell("A".into(), vec![Expr::Num(0.0)]), one()),
+        6 => Expr::un(UnOp::Neg, Expr::Cell("A".into(), vec![one()])),
+        _ => Expr::Rnd(Box::new(one())),
+    };
+    for k in 0..c.depth {
+        e = match c.wrap % 4 {
+            0 => Expr::Paren(Box::new(e)),
+            1 => Expr::Abs(Box::new(e)),
+            2 => Expr::Cell("A".into(), vec![e]),
+            _ => {
+                if k % 2 == 0 {
+                    Expr::Paren(Box::new(e))
+                } else {
+                    Expr::Cell("A".into(), vec![e])
+                }
+            }
+        };
+    }
+    let stmt = match c.stmt % 3 {
+        0 => Stmt::Print(vec![PrintItem::Expr(e)]),
+        1 => Stmt::Let { target: LValue::Var("X".into()), value: e, with_let: false },
+        _ => Stmt::Let { target: LValue::Cell("A".into(), vec![e]), value: Expr::Num(1.0), with_let: false },
+    };
+    Program { lines: vec![Line { number: 10, stmts: vec![stmt] }] }
+}
+
+fn check_depth(c: &DepthCase, rec: &mut CaseRec) -> Verdict {
+    let v = check(&AgreeCase { prog: depth_case_program(c), damage: vec![], seed: 1 }, rec);
+    rec.class("nesting-boundary");
+    v
+}
+
 fn damage() -> impl Strategy<Value = Damage> {
     (any::<u16>(), 0u8..8, any::<u16>()).prop_map(|(line, kind, pos)| Damage { line, kind, pos })
 }
@@ -402,6 +452,13 @@ pub fn property() -> Property {
             },
             check,
         ),
+        enum_family(
+            "nesting-boundary",
+            true,
+            |_| 16 * 8 * 4 * 3,
+            |_, i| DepthCase { depth: 90 + (i % 16) as u32, core: ((i / 16) % 8) as u8, wrap: ((i / 128) % 4) as u8, stmt: ((i / 512) % 3) as u8 },
+            check_depth,
+        ),
         prop_family("lines-well-typed", 20_000, 1_000_000, |_| line_case(0, false), check),
         prop_family("lines-ill-typed", 20_000, 1_000_000, |_| line_case(60, false), check),
         prop_family("lines-damaged", 20_000, 1_000_000, |_| line_case(0, true), check),
@@ -411,7 +468,7 @@ pub fn property() -> Property {
     ];
     Property {
         id: "C06",
-        rule: "Single numbered lines (1-3 statements from every statement template incl. IF/THEN/ELSE, FOR, NEXT, GOTO, GOSUB, READ, DATA, DIM, DEF, INPUT, calls) and small programs (DEFs first, each function defined at most once; one case in three hands the lines to the analyzer in a shuffled file order) in three modes: well-typed, ill-typed (kind errors injected in operands, subscripts, FOR bounds, assignment targets, arguments) and damaged (a word deleted / duplicated / swapped, the line truncated, a `$` added or stripped, a numeral given a fractional part, or a word replaced by / preceded with an array cell, a call, a value of the other kind, stray punctuation, a keyword, or a call of one of the program's functions with the wrong number or kind of arguments). Direction 1: when the analyzer reports no error and the text keeps the property's precondition (no function defined twice, no call placed before its definition in line order - damage can break it, such cases are counted and skipped), the program is executed by RUN and, after executing its DEF lines, by GOTO to each of its first 24 lines under three variable environments (all unset, all 1/\"a\", mixed) with mixed numeric/text replies, 300 calls each; no execution may end in a syntax error, TYPE MISMATCH or UNDEF'D STATEMENT. Direction 2: every file line the analyzer rejects and whose text contains no IF/THEN/ELSE/GOTO/GOSUB/RETURN/NEXT/END/STOP/INPUT/DEF and no user-function name is entered alone into a fresh interpreter and RUN; it must fail. Each execution is one evaluation. Non-trivial: an accepted program with >= 4 executions, or a rejected straight-line line confirmed; distinct by text.",
+        rule: "Single numbered lines (1-3 statements from every statement template incl. IF/THEN/ELSE, FOR, NEXT, GOTO, GOSUB, READ, DATA, DIM, DEF, INPUT, calls) the nesting boundary (exhaustive: PRINT / assignment / subscripted-target statements whose expression wraps eight small cores - numeral, variable, one- and two-dimensional cells, built-in calls, a sum and a negation of cells - in 90..105 levels of parentheses, ABS calls, subscripts or both alternately, i.e. around the cap of 100 levels that analyzer and interpreter both enforce) and small programs (DEFs first, each function defined at most once; one case in three hands the lines to the analyzer in a shuffled file order) in three modes: well-typed, ill-typed (kind errors injected in operands, subscripts, FOR bounds, assignment targets, arguments) and damaged (a word deleted / duplicated / swapped, the line truncated, a `$` added or stripped, a numeral given a fractional part, or a word replaced by / preceded with an array cell, a call, a value of the other kind, stray punctuation, a keyword, or a call of one of the program's functions with the wrong number or kind of arguments). Direction 1: when the analyzer reports no error and the text keeps the property's precondition (no function defined twice, no call placed before its definition in line order - damage can break it, such cases are counted and skipped), the program is executed by RUN and, after executing its DEF lines, by GOTO to each of its first 24 lines under three variable environments (all unset, all 1/\"a\", mixed) with mixed numeric/text replies, 300 calls each; no execution may end in a syntax error, TYPE MISMATCH or UNDEF'D STATEMENT. Direction 2: every file line the analyzer rejects and whose text contains no IF/THEN/ELSE/GOTO/GOSUB/RETURN/NEXT/END/STOP/INPUT/DEF and no user-function name is entered alone into a fresh interpreter and RUN; it must fail. Each execution is one evaluation. Non-trivial: an accepted program with >= 4 executions, or a rejected straight-line line confirmed; distinct by text.",
         assumptions: vec![
             "branch forcing is by start line and variable environment, not exhaustive over conditions",
             "starting execution at any line after the DEFs ran is a legitimate execution of the program",
